@@ -3,6 +3,7 @@ import LentilVerif.Lemmas.Extent
 import LentilVerif.Lemmas.Field
 import LentilVerif.Lemmas.Reduce
 import Mathlib.Algebra.Ring.Defs
+import Mathlib.Tactic.SplitIfs
 import Mathlib.Algebra.GroupWithZero.Defs
 import Mathlib.Algebra.Group.Basic
 /-! # C06 — field and extent bookkeeping equals arithmetic on an infinite zero-padded plane
@@ -401,6 +402,25 @@ theorem insert_slices_wellformed (s0 s1 o0 o1 S0 S1 : Int) (orow ocol frow fcol 
   insertIdx_wellformed s0 s1 o0 o1 S0 S1 orow ocol frow fcol h
 /-- non-vacuity: a 4×3 field at (−2, 2) in a 3×4 target is clipped at the top and on the right -/
 example : Gen.insertIdx 4 3 (-2) 2 3 4 = some (((0, 1), (3, 4)), ((3, 4), (0, 1))) := by decide
+
+/-- the whole-array fast path of `insert` (`out += field.data`, taken when the translated test `Gen.insertFast` holds:
+equal shapes and zero offset) does exactly what the general index arithmetic would do: both address the whole target
+and the whole field -/
+theorem insert_fast_path (s0 s1 o0 o1 S0 S1 : Int) (hs : 0 < s0 ∧ 0 < s1)
+    (h : Gen.insertFast s0 s1 o0 o1 S0 S1 = true) :
+    Gen.insertIdx s0 s1 o0 o1 S0 S1 = some (((0, S0), (0, S1)), ((0, s0), (0, s1))) := by
+  unfold Gen.insertFast at h
+  simp only [Bool.and_eq_true, decide_eq_true_eq] at h
+  obtain ⟨⟨h1, h2⟩, h3, h4⟩ := h
+  subst h1 h2 h3 h4
+  unfold Gen.insertIdx
+  simp only []
+  split_ifs <;> simp_all <;> omega
+
+/-- and the fast path is taken only then -/
+theorem insert_fast_iff (s0 s1 o0 o1 S0 S1 : Int) :
+    Gen.insertFast s0 s1 o0 o1 S0 S1 = true ↔ (s0 = S0 ∧ s1 = S1) ∧ (o0 = 0 ∧ o1 = 0) := by
+  unfold Gen.insertFast; simp only [Bool.and_eq_true, decide_eq_true_eq]
 
 /-- the shape of the target never changes -/
 theorem insert_shape (f : Fld K) (out : Arr K) (w : K) (post : K → K) :
